@@ -244,6 +244,118 @@ for _m in ("hypnotoad.scripts.hypnotoad_geqdsk", "hypnotoad.scripts.hypnotoad_ci
                                "(symbolic option name, z3 strings); the shipped reference settings pass the filter",
                           stubs=["argument parsing, file I/O and grid generation are not executed (AST slice of the filter only)"],
                           bounds="one option key, any string"))
+import hypnotoad.cases.tokamak as tok_mod  # noqa: E402
+from harness.common import patched, PROXY   # noqa: E402
+
+
+class _DescriptorDone(Exception):
+    pass
+
+
+def _mk_cdn_guard(psi_sign):
+    """connected double null (nx_inter_sep = 0) with the two X-points on different flux surfaces: the real describeDoubleNull with symbolic
+    separatrix values and symbolic radial grid values either refuses, or every cell centre it labels scrape-off layer lies outside BOTH separatrices"""
+    def body(env):
+        import harness.c08 as c08
+        out = {}
+
+        class Vals:
+            def __init__(self, name, start):
+                self.name, self.start, self.v = name, start, {}
+
+            def __getitem__(self, k):
+                if isinstance(k, slice):
+                    return c08.FakeVals((self.name, "slice"))
+                if k == 0:
+                    return self.start
+                if k not in self.v:
+                    self.v[k] = env.real("psi_vals_%s_%d" % (self.name, k))
+                    prev = self[k - 1]
+                    env.assume((self.v[k] - prev) * psi_sign > 0)   # make1dGrid only returns monotone values (separate obligation)
+                return self.v[k]
+
+        def pre(eq):
+            p1 = env.real("psi_sep_second")
+            env.assume((p1 - eq.psi_sep[0]) * psi_sign >= 0)
+            env.assume((eq.psi_sol - p1) * psi_sign > 0)
+            eq.psi_sep = [eq.psi_sep[0], p1]
+            out["p1"] = p1
+
+            def seg(segments):
+                return {n: dict(s2, psi_vals=Vals(n, s2["psi_start"])) for n, s2 in segments.items()}
+            eq.segmentsWithPsivals = seg
+            try:
+                with patched((tok_mod, "np", PROXY)):
+                    leg, corer, segments, conns = eq.describeDoubleNull()
+                out["result"] = segments
+            except ValueError as e:
+                out["error"] = str(e)
+            raise _DescriptorDone()
+
+        try:
+            c08.build(env, "cdn", 0, False, pre=pre, psi_sign=psi_sign)
+        except _DescriptorDone:
+            pass
+        env.witness("descriptor_ran")
+        if "error" in out:
+            env.tag("refused")
+            env.claim("refusal_names_the_reason", "connected double-null" in out["error"])
+            return
+        env.tag("accepted")
+        segs = out["result"]
+        p1 = out["p1"]
+        for n in ("inner_sol", "outer_sol"):
+            centre = segs[n]["psi_vals"][1]
+            env.claim("first_sol_cell_centre_outside_second_separatrix:%s" % n, (centre - p1) * psi_sign >= 0)
+        # not over-strict: a second separatrix inside the first half cell of both SOL segments is gridded (an exactly connected double null is the
+        # shipped example)
+    return body
+
+
+def _mk_cdn_accepts(psi_sign):
+    def body(env):
+        import harness.c08 as c08
+        out = {}
+
+        def pre(eq):
+            d = env.real("separatrix_gap", lo=0.0, hi=0.01)
+            p0 = eq.psi_sep[0]
+            eq.psi_sep = [p0, p0 + psi_sign * d]
+
+            class Lin:
+                def __init__(self, start):
+                    self.start = start
+
+                def __getitem__(self, k):
+                    return c08.FakeVals("s") if isinstance(k, slice) else self.start + psi_sign * 0.02 * k
+            eq.segmentsWithPsivals = lambda segments: {n: dict(s2, psi_vals=Lin(s2["psi_start"])) for n, s2 in segments.items()}
+            try:
+                with patched((tok_mod, "np", PROXY)):
+                    eq.describeDoubleNull()
+                out["ok"] = True
+            except ValueError as e:
+                out["ok"] = False
+            raise _DescriptorDone()
+
+        try:
+            c08.build(env, "cdn", 0, False, pre=pre, psi_sign=psi_sign)
+        except _DescriptorDone:
+            pass
+        env.witness("descriptor_ran")
+        env.claim("separatrix_inside_first_half_cell_is_gridded", out["ok"])
+    return body
+
+
+for _s, _n in ((1.0, "psi_increasing"), (-1.0, "psi_decreasing")):
+    OBLIGATIONS.append(Ob("connected_double_null_guard_%s" % _n, _mk_cdn_guard(_s), tier="quick", family="topology guards",
+                          encodes=["hypnotoad.cases.tokamak:TokamakEquilibrium.describeDoubleNull"],
+                          desc="nx_inter_sep=0 with distinct separatrices: refused, or the first SOL cell centre is outside the second separatrix",
+                          bounds="symbolic second-separatrix psi between the first separatrix and psi_sol; symbolic monotone radial values; symbolic sizes",
+                          max_paths=200))
+    OBLIGATIONS.append(Ob("connected_double_null_accepts_%s" % _n, _mk_cdn_accepts(_s), tier="quick", family="topology guards",
+                          encodes=["hypnotoad.cases.tokamak:TokamakEquilibrium.describeDoubleNull"],
+                          desc="a second separatrix within the first half SOL cell (gap <= 0.01 with centres 0.02 apart) is gridded, not refused",
+                          bounds="uniform radial values; symbolic gap", max_paths=100))
 OBLIGATIONS.append(Ob("geometry_stage_order", ob_geometry_order, tier="quick", family="file contents", encodes=["hypnotoad.core.mesh:Mesh.geometry"],
                       desc="distances, geometry1, geometry2, zShift, metric: each stage completed for all regions before the next starts", bounds="3 recording regions"))
 OBLIGATIONS.append(Ob("documented_variables_have_a_writer", ob_documented_variables, tier="quick", family="file contents",
